@@ -2,20 +2,20 @@ package wire
 
 import (
 	"bytes"
-	"math/rand/v2"
-	"sync"
 	"context"
 	"crypto/tls"
 	"encoding/base64"
 	"encoding/json"
 	"fmt"
 	"io"
+	"math/rand/v2"
 	"net"
 	"net/http"
 	"net/netip"
 	"net/url"
 	"sort"
 	"strings"
+	"sync"
 	"time"
 
 	"github.com/AdguardTeam/AdGuardDNS/verif/kernel"
@@ -366,9 +366,14 @@ func (tk *task) Failf(class, witness, format string, args ...any) {
 	}
 }
 
-func (tk *task) Failed() bool            { return tk.fail != nil }
-func (tk *task) Probe(name string)       { tk.s.Probe(name) }
-func (tk *task) Choose(n int) int        { if n <= 1 { return 0 }; return tk.rng.IntN(n) }
+func (tk *task) Failed() bool      { return tk.fail != nil }
+func (tk *task) Probe(name string) { tk.s.Probe(name) }
+func (tk *task) Choose(n int) int {
+	if n <= 1 {
+		return 0
+	}
+	return tk.rng.IntN(n)
+}
 func (tk *task) Chance(num, den int) bool { return tk.rng.IntN(den) < num }
 
 // pause lets simulated time pass between two actions of a task.
@@ -444,7 +449,14 @@ func runC01(s *kernel.Sim, cfg string) {
 	if p.slow {
 		s.Probe("handler-takes-time")
 	}
-	sv := startServers(s, n, p, serverOpts{dot: true, doh: true, doq: true, dnscrypt: true})
+	// In a third of the runs the plain-DNS and DoT servers listen through
+	// interface listeners.
+	boundBuf := 0
+	if t.Chance(1, 3, "bound") {
+		boundBuf = kernel.Pick(t, []int{1, 4, 64}, "bound-chan")
+		s.Probe("interface-bound-listeners")
+	}
+	sv := startServers(s, n, p, serverOpts{dot: true, doh: true, doq: true, dnscrypt: true, bound: boundBuf})
 	defer sv.shutdown()
 
 	nItems := t.Range(4, 24, "items")
@@ -692,7 +704,6 @@ func streamExchangeHalf(
 
 	return readFrames(c, 4*time.Second)
 }
-
 
 func clientStream(s *task, n *simnet.Net, tr, addr string, items []*item, tc *tls.Config) {
 	t := s
@@ -1148,7 +1159,6 @@ func clientDoQ(s *task, n *simnet.Net, items []*item) {
 		_ = conn.CloseWithError(0, "")
 	}
 }
-
 
 // ---- DNSCrypt ----
 
